@@ -13,12 +13,14 @@ Vecs ==
     \cup {[core |-> 2, ram |-> 1, disk |-> 3], [core |-> 1, ram |-> 2, unit |-> 1, mtu |-> 3], [cpu |-> 1, burst_size |-> 2, bw |-> 1]}
     \cup (IF Family = "cube" THEN {[core |-> x[1], ram |-> x[2], disk |-> x[3]] : x \in (0..2) \X (0..2) \X (0..2)} ELSE {})
 
-PureOps == {[op |-> n, a |-> a, b |-> b] : n \in {"Add", "Sub", "AddSub", "Gt", "Lt", "Eq", "NegOfDiff", "EncodeDiff", "FreeOf"},
+PureOps == {[op |-> n, a |-> a, b |-> b] : n \in {"Add", "Sub", "AddSub", "Gt", "Lt", "Eq", "NegOfDiff", "EncodeDiff", "FreeOf",
+                                                                  "ShowAdd", "ShowSub", "ShowLt"},
                                           a \in Vecs, b \in Vecs}
            \cup {[op |-> "Positive", a |-> a, b |-> b, fields |-> fs] : a \in Vecs, b \in Vecs,
                        fs \in {<<"core">>, <<"core", "ram", "disk">>, <<"bw", "unit">>}}
 LedgerVecs == {<<>>, Unit("core", 1), [core |-> 2, ram |-> 1, disk |-> 3], [f \in Fields |-> 1]}
 LedgerOps == {[op |-> n, a |-> a] : n \in {"SetTotal", "Allocate", "Release", "CanFit"}, a \in LedgerVecs}
+             \cup {[op |-> "ShowLedger"]}
 
 Init == st = EmptyLedger /\ lastop = [op |-> "Init"] /\ path = <<>> /\ chg = FALSE
 Next == \E o \in (IF path = <<>> THEN PureOps ELSE {}) \cup LedgerOps :
